@@ -152,48 +152,63 @@ CommonPrefixLen(p, q) ==
         S == {i \in 0..n : \A j \in 1..i : p[j] = q[j]}
     IN CHOOSE i \in S : \A k \in S : k <= i
 
+\* Notifications the node publishes while it works (events.Notify), in order:
+\* <<"c", b>> block connected, <<"d", b>> block disconnected, <<"p", b>> block
+\* processed (maybeAcceptBlock succeeded).  Subscribers (mempool, wallet)
+\* react to them; Mempool.tla folds the pool over this sequence.
+RevSeq(s) == [i \in 1..Len(s) |-> s[Len(s) + 1 - i]]
+EvC(s) == [i \in 1..Len(s) |-> <<"c", s[i]>>]
+EvD(s) == [i \in 1..Len(s) |-> <<"d", s[i]>>]
+
 Accept(b, m, k, fix) ==
     LET tip == IF m = <<>> THEN 0 ELSE m[Len(m)] IN
     IF Parent(b) = tip
     THEN \* extends the best chain: connectBlock with the context check
          IF CtxValid(b, m)
-         THEN [main |-> Append(m, b), known |-> k \cup {b}, ok |-> TRUE, inMain |-> TRUE, strand |-> FALSE]
-         ELSE [main |-> m, known |-> k, ok |-> FALSE, inMain |-> FALSE, strand |-> FALSE]
+         THEN [main |-> Append(m, b), known |-> k \cup {b}, ok |-> TRUE, inMain |-> TRUE, strand |-> FALSE,
+               ev |-> << <<"c", b>>, <<"p", b>> >>]
+         ELSE [main |-> m, known |-> k, ok |-> FALSE, inMain |-> FALSE, strand |-> FALSE, ev |-> <<>>]
     ELSE \* side chain: stored without context validation
          IF Height(b) <= Len(m)
-         THEN [main |-> m, known |-> k \cup {b}, ok |-> TRUE, inMain |-> FALSE, strand |-> FALSE]
+         THEN [main |-> m, known |-> k \cup {b}, ok |-> TRUE, inMain |-> FALSE, strand |-> FALSE,
+               ev |-> << <<"p", b>> >>]
          ELSE \* more work: reorganize (detach everything above the fork, attach one by one)
               LET path == PathTo(b)
                   f == CommonPrefixLen(m, path)
                   att == AttachFrom(SubSeq(m, 1, f), SubSeq(path, f + 1, Len(path)))
+                  evs == EvD(RevSeq(SubSeq(m, f + 1, Len(m)))) \o EvC(SubSeq(att.chain, f + 1, Len(att.chain)))
               IN IF att.ok
-                 THEN [main |-> att.chain, known |-> k \cup {b}, ok |-> TRUE, inMain |-> TRUE, strand |-> FALSE]
+                 THEN [main |-> att.chain, known |-> k \cup {b}, ok |-> TRUE, inMain |-> TRUE, strand |-> FALSE,
+                       ev |-> Append(evs, <<"p", b>>)]
                  ELSE \* ReorgPartialFailure (named deviation of today's code): the
                       \* detached blocks are not re-attached, the node stays on the
                       \* fork point plus the part of the branch that did connect.
                       [main |-> IF fix THEN m ELSE att.chain,
                        known |-> k \cup {b}, ok |-> FALSE, inMain |-> FALSE,
-                       strand |-> ~fix /\ att.chain # m]
+                       strand |-> ~fix /\ att.chain # m,
+                       ev |-> IF fix THEN <<>> ELSE evs]
 
 (* ProcessOrphans(b): breadth-first over the orphans whose parent was just *)
 (* accepted, in arrival order; the first orphan that fails stops the whole *)
 (* cascade and stays in the orphan pool.                                   *)
-RECURSIVE Cascade(_, _, _, _, _)
-Cascade(queue, m, k, orph, fix) ==
-    IF queue = <<>> THEN [main |-> m, known |-> k, orphans |-> orph, ok |-> TRUE, strand |-> FALSE]
+RECURSIVE Cascade(_, _, _, _, _, _)
+Cascade(queue, m, k, orph, fix, ev) ==
+    IF queue = <<>> THEN [main |-> m, known |-> k, orphans |-> orph, ok |-> TRUE, strand |-> FALSE, ev |-> ev]
     ELSE LET p == Head(queue)
              kids == SelectSeq(orph, LAMBDA o : Parent(o) = p)
-         IN IF kids = <<>> THEN Cascade(Tail(queue), m, k, orph, fix)
+         IN IF kids = <<>> THEN Cascade(Tail(queue), m, k, orph, fix, ev)
             ELSE LET o == Head(kids)
                      r == Accept(o, m, k, fix)
                  IN IF ~r.ok
-                    THEN [main |-> r.main, known |-> r.known, orphans |-> orph, ok |-> FALSE, strand |-> r.strand]
+                    THEN [main |-> r.main, known |-> r.known, orphans |-> orph, ok |-> FALSE, strand |-> r.strand,
+                          ev |-> ev \o r.ev]
                     ELSE Cascade(Append(queue, o), r.main, r.known,
-                                 SelectSeq(orph, LAMBDA x : x # o), fix)
+                                 SelectSeq(orph, LAMBDA x : x # o), fix, ev \o r.ev)
 
 (* The whole of ProcessBlock(b) as a function of the current state.        *)
 Outcome(b, fix) ==
-    LET same(res) == [main |-> main, known |-> known, orphans |-> orphans, res |-> res, strand |-> FALSE] IN
+    LET same(res) == [main |-> main, known |-> known, orphans |-> orphans, res |-> res, strand |-> FALSE,
+                      ev |-> <<>>] IN
     IF b \in known
     THEN same([inMain |-> FALSE, orphan |-> FALSE, err |-> TRUE, why |-> "exists"])
     ELSE IF b \in SeqSet(orphans)
@@ -201,22 +216,22 @@ Outcome(b, fix) ==
     ELSE IF ~Sane(b)
     THEN same([inMain |-> FALSE, orphan |-> FALSE, err |-> TRUE, why |-> "sanity"])
     ELSE IF Parent(b) # 0 /\ Parent(b) \notin known
-    THEN [main |-> main, known |-> known, orphans |-> Append(orphans, b), strand |-> FALSE,
+    THEN [main |-> main, known |-> known, orphans |-> Append(orphans, b), strand |-> FALSE, ev |-> <<>>,
           res |-> [inMain |-> FALSE, orphan |-> TRUE, err |-> FALSE, why |-> "orphan"]]
     ELSE LET r == Accept(b, main, known, fix) IN
          IF ~r.ok
-         THEN [main |-> r.main, known |-> r.known, orphans |-> orphans, strand |-> r.strand,
+         THEN [main |-> r.main, known |-> r.known, orphans |-> orphans, strand |-> r.strand, ev |-> r.ev,
                res |-> [inMain |-> FALSE, orphan |-> TRUE, err |-> TRUE,
                         why |-> IF r.known = known THEN "context" ELSE "reorg-failed"]]
-         ELSE LET c == Cascade(<<b>>, r.main, r.known, orphans, fix) IN
-              [main |-> c.main, known |-> c.known, orphans |-> c.orphans, strand |-> c.strand,
+         ELSE LET c == Cascade(<<b>>, r.main, r.known, orphans, fix, r.ev) IN
+              [main |-> c.main, known |-> c.known, orphans |-> c.orphans, strand |-> c.strand, ev |-> c.ev,
                res |-> IF c.ok THEN [inMain |-> r.inMain, orphan |-> FALSE, err |-> FALSE, why |-> "accepted"]
                                ELSE [inMain |-> FALSE, orphan |-> FALSE, err |-> TRUE, why |-> "orphan-failed"]]
 
 ---------------------------------------------------------------------------
-Log(act, args, res, strd, alt) ==
+Log(act, args, res, strd, alt, ev) ==
     log' = Append(log, [act |-> act, args |-> args, res |-> res,
-                        strand |-> strd, altMain |-> alt,
+                        strand |-> strd, altMain |-> alt, ev |-> ev,
                         main |-> main',
                         utxo |-> UtxoOf(main'),
                         addrA |-> AddrUtxo(main', "A"),
@@ -257,7 +272,7 @@ Deliver(b) ==
            alt == Outcome(b, ~FixFailedReorg)     \* what the other variant of reorganizeChain would leave
        IN /\ main' = o.main /\ known' = o.known /\ orphans' = o.orphans
           /\ strand' = o.strand
-          /\ Log("Deliver", [id |-> b], o.res, o.strand, alt.main)
+          /\ Log("Deliver", [id |-> b], o.res, o.strand, alt.main, o.ev)
 
 Next == \/ \E p \in 0..MaxBlocks, ts \in TxSeqs, bad \in {"none", "merkle", "reward"} : Mint(p, ts, bad)
         \/ StartRun
